@@ -72,7 +72,6 @@ fn any_inbound(env: &Env) -> Inbound {
 
 // HARNESS props=C04,C05,C11 tier=quick profile=its shape="one delivery; decoder results arbitrary; inner message transfer or deploy with every field symbolic; one trusted-chain entry, one token entry, one gateway approval record; strings <=2-3 bytes (source chain 6)"
 #[kani::proof]
-#[kani::unwind(164)]
 #[kani::stub(axelar_gateway::messaging_interface::xc_AxelarGatewayMessagingClient_validate_message, spec_validate_message)]
 #[kani::stub(axelar_gateway::messaging_interface::xc_AxelarGatewayMessagingClient_is_message_approved, spec_is_message_approved)]
 #[kani::stub(axelar_gateway::messaging_interface::xc_AxelarGatewayMessagingClient_is_message_executed, spec_is_message_executed)]
